@@ -8,7 +8,7 @@ StateRec == [lim |-> lim, st |-> st, out |-> out, sem |-> sem, sub |-> sub, loop
 
 \* Leg R: the harness decides the environment steps and lets the real code run until it is settled, so
 \* environment steps are exported only from states in which no internal step is enabled ("eager" graph).
-EnvOps == {"Arrive", "Disconnect", "CloseListener", "StopBegin", "ThAdd", "ThRefuse", "ThCheck", "AllowCheck", "Handshake"}
+EnvOps == {"Arrive", "Disconnect", "CloseListener", "StopBegin", "ThAdd", "ThRefuse", "ThCheck", "AllowCheck", "Refuse", "Handshake"}
 IsEnvStep == \/ act'.op \in EnvOps
              \/ (act'.op = "Abort" /\ stop = "no")
              \/ (act'.op = "RemovePeer" /\ ~dead[act'.p])
@@ -31,7 +31,10 @@ InternalEnabledExcept(ops) ==
     \/ (\E c \in Conns : dead[c] /\ G_RemovePeer(c))
 
 Harness == GateOps \cup ConnGateOps
-Eager == (IsEnvStep \/ act'.op \in Harness) => ~InternalEnabledExcept(Harness)
+\* a harness that connects after the listener has been closed is always refused (allowConnect after the close
+\* needs an accept before it, which a sequential replay does not produce)
+Eager == /\ (IsEnvStep \/ act'.op \in Harness) => ~InternalEnabledExcept(Harness)
+         /\ ~(act'.op = "AllowCheck" /\ act'.p \in InConns /\ lclosed)
 
 Emit ==
     PrintT("EDGE " \o ToJson([init |-> (act.op = "Init"), from |-> StateRec, act |-> act',
